@@ -6,14 +6,14 @@ RULE17 = ("NeoFS deployed with notaryDisabled=true (never done by the repository
           "(voter, id) sequence of length <= 4 for n <= 2 (quick) / <= 6 for n <= 3 and <= 5 for n = 4 (thorough), one sequence per block. "
           "Observation = VM state, notifications incl. native GAS transfers, decoded raw storage (keys, config, candidates, ballots), "
           "GAS balances, read API. distinct_nontrivial = distinct (operation, observation) pairs of HALTed invocations")
-RULE19 = ("NeoFS in both modes: deposits (GAS transfers) and direct callback calls with amounts {0,1,2,-1,9000 GAS-1,9000 GAS,9000 GAS+1,balance,"
+RULE19 = ("Notary-mode cases run on chain committees of 1, 3, 4, 5, 6 and 7 keys with the n/2+1 majority account (and the majority account of the stored keys) as a signer kind next to the 2n/3+1 account; NeoFS in both modes: deposits (GAS transfers) and direct callback calls with amounts {0,1,2,-1,9000 GAS-1,9000 GAS,9000 GAS+1,balance,"
           "balance+-1,random} and data {null, empty, 20 bytes, ignore marker, 2/19/21 bytes, Integer 0/5/marker-valued/20-byte, Array, Boolean}; "
           "withdraw {−1,0,1,5,8999,9000,9001} with fees {0,1,7,1 GAS,absent,negative} and the payer's balance at fee*n-1/fee*n/fee*n+1; candidate "
           "registration/removal; cheques around the contract balance to users, the contract itself, Processing, a probe; fee changes by setConfig; "
           "malformed addresses/keys. Alphabet emit for committee sizes 1..7, Inner Ring sizes 1..7, contract balances 0..10^12, right/wrong/no "
           "signer; GAS and NEO transfers and direct calls to the payment callbacks of Alphabet, Proxy, Processing (from the entry script and from a "
           "probe contract). distinct_nontrivial = distinct (operation, observation) pairs of HALTed invocations")
-_base = dict(driver="drv_neofs", harness="neofs", facts=["consts"])
+_base = dict(driver="drv_neofs", harness="neofs", facts=["consts", "footprint"])
 PROPS = {
     "C17": dict(_base, lean=["NeoFS.Props.C17"], monitors=["C17"], rule=RULE17, shards=dict(quick=1, thorough=16),
                 env=dict(VERIF_KINDS="vote,exh")),
